@@ -139,8 +139,16 @@ struct StaticCastOverflowImpl<Source, Dest, OverflowSituation::FLOAT_TO_ANYTHING
         // It's pretty safe to assume that `Source` can hold the limits of `Dest`, because otherwise
         // this would have been categorized as `DEST_BOUNDS_CONTAIN_SOURCE_BOUNDS` rather than
         // `FLOAT_TO_ANYTHING`.
+        //
+        // When `Dest` is integral with more digits than `Source` has, its max value (2^N - 1) is
+        // not representable in `Source`, and converting it rounds _up_ to 2^N, which is itself out
+        // of range.  In that case, the upper comparison must be inclusive.
+        constexpr bool max_rounds_up =
+            std::is_integral<Dest>::value &&
+            (std::numeric_limits<Dest>::digits > std::numeric_limits<Source>::digits);
+        constexpr Source max_as_source = static_cast<Source>(std::numeric_limits<Dest>::max());
         return (x < static_cast<Source>(std::numeric_limits<Dest>::lowest())) ||
-               (x > static_cast<Source>(std::numeric_limits<Dest>::max()));
+               (max_rounds_up ? (x >= max_as_source) : (x > max_as_source));
     }
 };
 
